@@ -34,6 +34,14 @@ CORPUS = [
     (0, dict(method='pit', dim=2, fold=False, auto=True, userpit='none', train=True, multi=False, excl=False)),
     (5, dict(method='sn', dim=2, train=True, multi=False)),
     (7, dict(method='mps', dim=2, train=True, multi=False)),
+    # models handed over with MIXED flags (a frozen BatchNorm / Dropout inside a training model and the converse)
+    (41, dict(method='sn', dim=2, train=True, multi=False, mixed=True)),
+    (42, dict(method='sn', dim=1, train=False, multi=False, mixed=True)),
+    (43, dict(method='pit', dim=2, fold=False, auto=True, userpit='none', train=True, multi=False, excl=True, mixed=True)),
+    (44, dict(method='pit', dim=1, fold=True, auto=False, userpit='some', ufold='same', train=True, multi=False, excl=False, mixed=True)),
+    (45, dict(method='pit', dim=2, fold=False, auto=False, userpit='some', ufold='same', train=False, multi=False, excl=False, mixed=True)),
+    (46, dict(method='mps', dim=2, train=True, multi=False, mixed=True)),
+    (47, dict(method='mps', dim=2, train=False, multi=False, mixed=True)),
 ]
 
 
@@ -47,6 +55,7 @@ def gen_cases(ctx):
     def add(cfg):
         nonlocal k
         k += 1
+        cfg['mixed'] = rng.random() < 0.45      # some modules flipped against the root's mode (frozen BN / Dropout ...)
         cases.append((base + k, cfg))
     for rep in range(n):
         for fold in (False, True):
@@ -69,8 +78,8 @@ def gen_cases(ctx):
 
 def cfg_tag(cfg):
     if cfg['method'] != 'pit':
-        return '%s:%s' % (cfg['method'], 'train' if cfg['train'] else 'eval')
-    return 'pit:%s:%s:%s%s:%s' % ('auto' if cfg['auto'] else 'import', 'userpit-' + cfg.get('userpit', 'none'), 'fold' if cfg['fold'] else 'nofold',
+        return '%s%s:%s' % ('mixed-flags:' if cfg.get('mixed') else '', cfg['method'], 'train' if cfg['train'] else 'eval')
+    return ('mixed-flags:' if cfg.get('mixed') else '') + 'pit:%s:%s:%s%s:%s' % ('auto' if cfg['auto'] else 'import', 'userpit-' + cfg.get('userpit', 'none'), 'fold' if cfg['fold'] else 'nofold',
                                   ':int' if cfg.get('integer') else '', 'train' if cfg['train'] else 'eval')
 
 
